@@ -18,7 +18,8 @@ from .flow import PathExprBuilder, enumerate_paths, canon, walk, fmt_expr
 CONSUMING = ("advance", "copy_to_slice", "copy_to_bytes")
 
 
-def rooted_at_self(e):
+def rooted_at_self(e, b=None):
+    # in a closure the receiver is reached through the captured environment (param 1 of the closure)
     return isinstance(e, tuple) and any(x == ("param", 1) for x in walk(e))
 
 
@@ -27,15 +28,28 @@ def run(facts):
                        "call) no advance / copy / get_* / successful try_* on self precedes the failure")
     n = 0
     for b in facts.fn_bodies():
-        if facts.is_test(b) or b.kind not in ("fn", "assoc_fn"):
+        if facts.is_test(b) or b.kind not in ("fn", "assoc_fn", "closure"):
             continue
         name = b.id.rsplit("::", 1)[-1]
-        out = str(b.j.get("output", ""))
-        if not name.startswith("try_") or "Result<" not in out or "TryGetError" not in out or b.arg_count < 1:
+        out = str(b.j.get("output") or (b.locals[0]["ty"] if b.locals else ""))
+        is_cl = b.kind == "closure" and "Result<" in out and "TryGetError" in out
+        if not (name.startswith("try_") or is_cl) or "Result<" not in out or "TryGetError" not in out or b.arg_count < 1:
             continue
         n += 1
         bad = None
+        bad_ok = None
         n_err = 0
+        # does the function consume at all by itself (or is it a pure forwarder)?
+        has_consumer = False
+        for _bi, _t in b.calls():
+            _fn = callee(_t)
+            if _fn and (_fn["name"] in CONSUMING or _fn["name"] == "try_copy_to_slice" or (_fn["name"].startswith("get_") and not _fn["name"].startswith(("get_ref", "get_mut")))
+                        or _fn["name"].startswith("try_get_")):
+                has_consumer = True
+        from .flow import cfg_of
+        _cfg = cfg_of(b)
+        if any(_cfg.reaches(d_, s_) or d_ == s_ for s_ in range(_cfg.n) for d_ in _cfg.succ[s_] if not b.blocks[s_]["cleanup"] and not b.blocks[d_]["cleanup"]):
+            has_consumer = False        # a copy loop: how often it consumes is the subject of C5
         for path in enumerate_paths(b, limit=4000):
             pe = PathExprBuilder(b, facts, path, inline=False)
             pos = {bb: i for i, bb in enumerate(path)}
@@ -68,7 +82,7 @@ def run(facts):
                                 break
                         branches[src] = (i, arm)
                     continue
-                if not rooted_at_self(a0):
+                if not rooted_at_self(a0, b):
                     continue
                 if nm in CONSUMING or (nm.startswith("get_") and not nm.startswith("get_ref") and not nm.startswith("get_mut")):
                     consumes.append((i, nm))
@@ -113,11 +127,18 @@ def run(facts):
                 if fail_at is None:
                     fail_at = (len(path) - 1, "an Err is returned")
             if fail_at is None:
+                # a path that hands out a value: Ok(..) built here must come after exactly one consuming step
+                own_ok = isinstance(e, tuple) and e and e[0] == "agg" and isinstance(e[1], tuple) and str(e[1][1]).endswith("::Ok")
+                if own_ok and has_consumer and len(consumes) != 1 and bad_ok is None:
+                    bad_ok = (path, consumes)
                 continue
             n_err += 1
             before = [c for c in consumes if c[0] < fail_at[0]]
             if before and bad is None:
                 bad = (path, before, fail_at)
+        if bad_ok and not bad:
+            res.bad("%s|Ok consumes exactly once" % b.id, b.loc(), "on the path bb%s a value is returned after %d consuming steps (%s): the cursor must advance by exactly the bytes read, once" % (
+                "->bb".join(str(x) for x in bad_ok[0]), len(bad_ok[1]), ", ".join(c[1] for c in bad_ok[1]) or "none"))
         key = "%s|Err leaves the cursor untouched" % b.id
         if bad:
             res.bad(key, b.loc(), "on the path bb%s %s after %s has already consumed bytes: the caller gets Err but the cursor has moved" % (
